@@ -175,6 +175,12 @@ func judge(sc *Scenario, res *result) (misses []miss, classes []string) {
 					first.At.Sub(a.DoneAt) < 20*time.Millisecond && (cls == "" || cls == "overflow") {
 					lateStatus = true
 				}
+				// the same leak with an upstream status MOSN also uses for its own failures (502, 503): told apart by the
+				// upstream reply having gone out after the global timeout - the timeout reply was already on its way
+				if sc.Proto == "Http1" && a.Step.Kind == "reply5xx" && a.Wrote == "full" && want == first.Status && !a.DoneAt.IsZero() &&
+					first.At.Sub(a.DoneAt) < 20*time.Millisecond && !a.DoneAt.Before(res.T0.Add(gt)) && !failureInjected && cls != "timeout" {
+					lateStatus = true
+				}
 			}
 			if lateStatus {
 				cls = "leaked"
@@ -403,7 +409,8 @@ func hangCause(sc *Scenario, res *result) string {
 	// arrival is a retry interval (10 ms) late
 	if n := len(res.Arrivals); n > 0 && sc.TryMs == 0 && (sc.Post || sc.Proto != "Http1") && !sc.allLive() {
 		last, first := res.Arrivals[n-1], res.Arrivals[0]
-		failedFirst := first.AtUs >= 9000
+		// (the lateness inference needs a process that was scheduled on time: after a long stall every arrival is late)
+		failedFirst := first.AtUs >= 9000 && res.MaxStallUs <= disturbedUs
 		for _, t := range res.RstUs {
 			if t < first.AtUs {
 				failedFirst = true
